@@ -42,6 +42,7 @@ BITS = irgen.BITS
 TY_BYTES = {"i8": 1, "u8": 1, "i16": 2, "u16": 2, "i32": 4, "u32": 4, "i64": 8, "u64": 8}
 BINOPS = ["+", "-", "*", "/", "%", "|", "&", "^", "<<", ">>", "rol", "ror"]
 FUEL = 6000
+ANCHOR_SEEDS = (640833115,)     # irgen module in which a spilled `neg` loses its result (known.d/C05.json spilled-rmw)
 WORKERS = 8
 
 
@@ -106,13 +107,14 @@ def restrict(m, bad):
 # ---------------------------------------------------------------------------------------------------
 # corpus
 # ---------------------------------------------------------------------------------------------------
-def irgen_programs(ctx, n, bad, nvec):
+def irgen_programs(ctx, n, bad, nvec, seeds=None):
     from engines.c02 import int_vectors
 
     out = []
     rng = random.Random("%d:c05:irgen" % ctx.seed)
-    for _ in range(n):
-        seed = rng.randrange(1 << 30)
+    # always in: generator seeds on which a listed finding was first observed (regression anchors)
+    seeds = seeds or (list(ANCHOR_SEEDS) + [rng.randrange(1 << 30) for _ in range(n)])
+    for seed in seeds:
 
         def make(seed=seed):
             m, info = irgen.gen_module(random.Random(seed))
@@ -133,14 +135,17 @@ def irgen_programs(ctx, n, bad, nvec):
     return out
 
 
-def pattern_programs(ctx, n, bad, nvec):
+def pattern_programs(ctx, n, bad, nvec, thorough=False):
     from engines.c02 import int_vectors
     from harness import irpatterns
 
     rng = random.Random("%d:c05:pat" % ctx.seed)
-    pats = irpatterns.patterns(random.Random(rng.randrange(1 << 30)), thorough=ctx.tier == "thorough")
+    pats = irpatterns.patterns(random.Random(rng.randrange(1 << 30)), thorough=thorough)
     if n < len(pats):
-        pats = rng.sample(pats, n)
+        # loops that test their own phi are always in (a shape with a listed finding), the rest is sampled
+        always = [p for p in pats if ":self_loop:" in p[0]]
+        rest = [p for p in pats if ":self_loop:" not in p[0]]
+        pats = always + rng.sample(rest, max(0, n - len(always)))
     out = []
     for key, mk, fn, ptys in pats:
         prng = random.Random(sum(ord(ch) * (k + 1) for k, ch in enumerate(key)))
@@ -154,6 +159,78 @@ def pattern_programs(ctx, n, bad, nvec):
         out.append({"key": key.replace(":", "."), "make": make, "fn": fn, "vecs": vecs,
                     "ext": [{"name": "ext_f", "rets": [project_ir.limbs(9, 4)]}],
                     "src": "harness/irpatterns.py pattern " + key})
+    return out
+
+
+def directed_programs(ctx, bad, nvec):
+    """Register pressure on purpose: N values of one type (N exceeds the registers of the class) are each replaced by
+    the result of a unary / shift operation and all results stay live, so some of the operated registers are spilled."""
+    from engines.c02 import int_vectors
+    from harness.irpatterns import B
+    from ppci import ir
+
+    out = []
+    for t, n in (("i16", 9), ("u16", 9), ("i32", 16), ("u64", 16), ("u8", 6)):
+        for op in ("neg", "not", "shl", "shr"):
+            if (op in ("neg", "not") and ("unop", "-" if op == "neg" else "~", t) in bad) or \
+                    (op in ("shl", "shr") and ("binop", "<<" if op == "shl" else ">>", t) in bad):
+                continue
+
+            def make(t=t, n=n, op=op):
+                b = B("f", t, [t, t])
+                a, sh = b.p
+                T = getattr(ir, t)
+                vals = [b.bin(a, "+", b.c(3 * k + 1, t), t) for k in range(n)]
+                amount = b.bin(sh, "&", b.c(3, t), t)
+                res = []
+                for v in vals:
+                    if op == "neg":
+                        res.append(b.e(ir.Unop("-", v, b.nm("n"), T)))
+                    elif op == "not":
+                        res.append(b.e(ir.Unop("~", v, b.nm("n"), T)))
+                    else:
+                        res.append(b.bin(v, "<<" if op == "shl" else ">>", amount, t))
+                # every operand dies at its operation (so it is coalesced with the result), every result lives to the end
+                # (each result is used twice, otherwise the selector folds it into the tree of its single use)
+                acc = b.c(0, t)
+                for k, r in enumerate(res):
+                    acc = b.bin(acc, "+", b.bin(r, "^", b.c(5 * k + 2, t), t), t)
+                for k, r in enumerate(res):
+                    acc = b.bin(acc, "^", b.bin(r, "+", b.c(k, t), t), t)
+                b.ret(acc)
+                return b.m
+
+            key = "dir.spill.%s.%s" % (op, t)
+            prng = random.Random(key)
+            out.append({"key": key, "make": make, "fn": "f", "vecs": int_vectors([t, t], prng, nvec), "ext": [],
+                        "src": "engines/c05.py directed_programs: %s of %d live %s values" % (op, n, t)})
+
+    # frame layout: stack slots of mixed sizes and alignments, all live across an external call, then read back
+    for order in (("u8", "u32", "u16", "u64", "u8", "u64", "u16", "u32"), ("u64", "u8", "u8", "u16", "u32", "u8", "u64"),
+                  ("u16", "u8", "u32", "u8", "u64")):
+        def make(order=order):
+            b = B("f", "u64", ["u64"])
+            x = ir.ExternalFunction("ext_f", [ir.i32], ir.i32)
+            b.m.add_external(x)
+            a = b.p[0]
+            slots = []
+            for k, t in enumerate(order):
+                p = b.alloc(BITS[t] // 8)
+                v = b.cast(b.bin(a, "+", b.c(0x0101010101010101 * (k + 1), "u64"), "u64"), t)
+                b.store(v, p)
+                slots.append((p, t))
+            r = b.e(ir.FunctionCall(x, [b.cast(a, "i32")], b.nm("xc"), ir.i32))
+            acc = b.cast(r, "u64")
+            for k, (p, t) in enumerate(slots):
+                acc = b.bin(b.bin(acc, "*", b.c(31, "u64"), "u64"), "+", b.cast(b.load(p, t), "u64"), "u64")
+            b.ret(acc)
+            return b.m
+
+        key = "dir.frame.%s" % "-".join(order)
+        prng = random.Random(key)
+        out.append({"key": key, "make": make, "fn": "f", "vecs": int_vectors(["u64"], prng, nvec),
+                    "ext": [{"name": "ext_f", "rets": [project_ir.limbs(7, 4)]}],
+                    "src": "engines/c05.py directed_programs: stack slots %s live across a call" % ",".join(order)})
     return out
 
 
@@ -184,8 +261,9 @@ def prepare_ir(ctx, programs, levels=LEVELS):
             label = "O%s+gcc-ld" % lv
             m = p["make"]()
             native.rename_ir(m, prefix)
+            itags = []
             with native.SpillWatch() as sw:
-                obj, elf, err = native.compile_ir(m, lv)
+                obj, elf, err = native.compile_ir(m, lv, tags=itags)
             if err and err.startswith("codegen:"):
                 # the back-end (or the optimiser) raised: C29 / C28's business, counted
                 k = "skipped_codegen_" + err.split(":", 1)[1]
@@ -196,7 +274,7 @@ def prepare_ir(ctx, programs, levels=LEVELS):
                 byhash[native.digest(elf)].labels.append(label)
                 continue
             u = native.Unit("%s|%s" % (p["key"], label), prefix, sig, vecs, p["ext"], elf=elf, err=err, obj=obj,
-                            labels=[label], tags=sw.tags())
+                            labels=[label], tags=sorted(set(itags + sw.tags())))
             if elf is not None:
                 byhash[native.digest(elf)] = u
             units.append(u)
@@ -255,6 +333,14 @@ def judge(ctx, cases, prop, label):
                                                                                        if k in ("status", "why")}))
         lab = c["vlabels"][vr - 1] if isinstance(vr, int) and 1 <= vr <= len(c["vlabels"]) else "?"
         tags = c["vtags"][vr - 1] if lab != "?" else []
+        if lab.startswith("ref:"):
+            # a reference build (gcc) disagrees with the specification: reported, never a violation
+            n = ctx.cov.get("spec_suspect", 0)
+            ctx.cov["spec_suspect"] = n + 1
+            if n < 10:
+                print("SPEC-SUSPECT property=%s case=%s args=%s (%s disagrees with IR.tla on the IR of ppci's front-end: %s)" % (
+                    prop, c["id"], c["vecs"][av - 1], lab, e.name))
+            continue
         key = "%s:%s%s:%s" % (prop, "".join(t + ":" for t in tags), c["id"], lab)
         if key in seen:
             continue
@@ -272,8 +358,10 @@ def account(ctx, cases, res):
     """Evidence from TLC's action coverage: executions classified (Done*), (execution, variant) pairs judged."""
     acts = core.tlcmod.action_coverage(res) if res is not None else {}
     acts = {k.split(".")[-1]: v for k, v in acts.items()}
-    judged = acts.get("PickVariant", 0)
-    ctx.count(None, n=sum(len(c["argv"]) * len(c["vlabels"]) for c in cases))
+    total = sum(len(c["argv"]) * len(c["vlabels"]) for c in cases)
+    # (TLC's per-action counter also counts successors regenerated while it reconstructs error traces)
+    judged = min(acts.get("PickVariant", 0), total)
+    ctx.count(None, n=total)
     ctx.cov["distinct_nontrivial"] += judged
     ctx.cov["traces_validated_against_impl"] += judged
     for a in ("DoneUndefined", "DoneOutOfModel", "DoneFuel", "DoneNoVariant"):
@@ -365,14 +453,22 @@ class Engine:
                    "function under test returned / left in memory / passed to the external stubs")
         ctx.assume("prefixing linker-visible names of a module (to link many modules into one executable) does not change its meaning")
         only = (ctx.only or {}).get("case", {}).get("program") if ctx.only else None
+        if ctx.only is not None:
+            thorough = ctx.only.get("tier", ctx.tier) == "thorough"
         if ctx.only is None:
             model_check(ctx)
         bad = probe_unsupported(ctx)
         nvec = 6 if thorough else 4
-        programs = irgen_programs(ctx, 200 if thorough else 24, bad, nvec) + \
-            pattern_programs(ctx, 500 if thorough else 40, bad, nvec)
         if only:
-            programs = [p for p in programs if p["key"] == only]
+            # replay: rebuild exactly that program from its key
+            if only.startswith("ir") and only[2:].isdigit():
+                programs = [p for p in irgen_programs(ctx, 0, bad, nvec, seeds=[int(only[2:])])]
+            else:
+                programs = [p for p in directed_programs(ctx, bad, nvec) + pattern_programs(ctx, 10 ** 9, bad, nvec, thorough=thorough)
+                            if p["key"] == only]
+        else:
+            programs = directed_programs(ctx, bad, nvec) + irgen_programs(ctx, 200 if thorough else 16, bad, nvec) + \
+                pattern_programs(ctx, 500 if thorough else 30, bad, nvec, thorough=thorough)
         run_programs(ctx, programs, "C05", prepare_ir)
 
 
